@@ -6,9 +6,14 @@
    output (filtered chunks ++ end) is that of the single chunk; (2) the text stages satisfy the law, so chains of
    text filters are chunk invariant unconditionally.  For the HTML stage the split law is the restart property of
    the tokenizer-driven filter; it is a HYPOTHESIS of C03_chain (named, not an axiom) and is what the
-   correspondence run exercises on the crate (every chunking is compared with the single chunk). *)
+   correspondence run exercises on the crate (every chunking is compared with the single chunk).
+   (3) The HTML stage satisfies the split law in every state and for every pair of chunks as long as the run does not
+   end in the stage's error state (C03_html_stage_law), hence C03_chunk_invariance: any filter list, any chunking, every
+   body on which no HTML stage ends in error when fed as one chunk.  The error state is entered only when
+   String::from_utf8 fails; that a valid UTF-8 body never triggers it is NOT proved (token boundaries are ASCII bytes);
+   on non-UTF-8 bodies the law is false (C03_law_fails_on_invalid_utf8). *)
 Require Import RIO.Base RIO.TokMonad RIO.HtmlTok RIO.BodyText RIO.HtmlFilter RIO.ChainProofs RIO.BodyProofs.
-Require Import RIO.TokShift RIO.HtmlSplit.
+Require Import RIO.TokLogic RIO.HtmlTokProofs RIO.TokShift RIO.HtmlSplit.
 Close Scope N_scope.
 
 (* (1) the chain preserves chunk invariance *)
@@ -50,27 +55,27 @@ Example C03_example_html :
 Proof. vm_compute. reflexivity. Qed.
 
 
-(* (3) The HTML stage (proofs: RIO.HtmlSplit, RIO.TokShift).  [tok_facts lower W] collects what is used about the
-   tokenizer besides prefix stability (C16_stable) and restart (RIO.TokShift.next_shift, proved): for an invariant W
-   of tokenizer states, [next] neither panics nor runs out of fuel, stays within the input, makes strict progress
-   on every complete token and keeps raw_tag among the raw-text element names — the totality facts of C16.
-   [stage_ok] = the stage is not in its error state (in_error), which it enters only when String::from_utf8 fails. *)
+(* (3) The HTML stage (proofs: RIO.HtmlSplit, RIO.TokShift, on top of the tokenizer theorems of C16: prefix stability
+   C16_stable, totality C16_next_total, and the restart property RIO.TokShift.next_shift).
+   [lower_ok lower]: the lowercase oracle is ASCII lowercasing on the ten raw-text element names (the only hypothesis
+   on String::to_lowercase).  [stage_ok] = the stage is not in its error state (in_error), which it enters only when
+   String::from_utf8 fails, i.e. on bodies that are not UTF-8. *)
 
 (* the stage's loop is a fold over the token stream of the data: every complete token is processed in order, a
    last text token containing '<' is held back together with the incomplete rest *)
-Theorem C03_html_fold : forall lower sel W, tok_facts lower W -> forall d F s out, tinv W d s ->
+Theorem C03_html_fold : forall lower sel, lower_ok lower -> forall d F s out, tinv wf0 d s ->
   filter_loop lower sel (fuel_of d) F d s out
   = spec_from lower sel (fst (toks lower (fuel_of d) d s)) (snd (toks lower (fuel_of d) d s)) F out.
-Proof. exact filter_loop_spec. Qed.
+Proof. intros lower sel LO. exact (filter_loop_spec lower sel wf0 (tok_facts_wf0 lower LO)). Qed.
 
 (* the split law of the HTML stage, for EVERY state F of the stage and every pair of chunks, as long as the run on
    c1 ++ c2 does not end in the error state; then the run on c1 does not either *)
-Theorem C03_html_stage_law : forall lower sel W, tok_facts lower W -> forall F c1 c2,
+Theorem C03_html_stage_law : forall lower sel, lower_ok lower -> forall F c1 c2,
   f_in_error (fst (hfb_filter lower sel F (c1 ++ c2))) = false ->
   (let '(F1, o1) := hfb_filter lower sel F c1 in let '(F2, o2) := hfb_filter lower sel F1 c2 in (F2, o1 ++ o2))
   = hfb_filter lower sel F (c1 ++ c2)
   /\ f_in_error (fst (hfb_filter lower sel F c1)) = false.
-Proof. exact hfb_split_law_noerr. Qed.
+Proof. intros lower sel LO. exact (hfb_split_law_noerr lower sel wf0 (tok_facts_wf0 lower LO)). Qed.
 
 (* in the error state the stage is the identity *)
 Theorem C03_html_stage_law_in_error : forall lower sel F c1 c2, f_in_error F = true ->
@@ -80,10 +85,14 @@ Proof. exact hfb_split_law_in_error_partial. Qed.
 
 (* chunk invariance of the whole body filter (any list of text and HTML filters, any chunking incl. empty chunks)
    on every body for which no HTML stage ends in its error state when the body is fed as a single chunk *)
-Theorem C03_chunk_invariance : forall lower sel W ctok fs c cs, tok_facts lower W ->
+Theorem C03_chunk_invariance : forall lower sel ctok fs c cs, lower_ok lower ->
   Forall stage_ok (fst (cf stage (stage_tf lower sel) (stages_of ctok fs) (concat (c :: cs)))) ->
   body_run lower sel ctok fs (c :: cs) = body_run lower sel ctok fs [concat (c :: cs)].
-Proof. intros lower sel W ctok fs c cs TF. exact (body_chunk_invariant lower sel W TF ctok fs c cs). Qed.
+Proof. intros lower sel ctok fs c cs LO. exact (body_chunk_invariance lower sel ctok fs c cs LO). Qed.
+
+(* ASCII lowercasing is such an oracle *)
+Theorem C03_lower_ok_ascii : lower_ok (map ascii_lower).
+Proof. exact lower_ok_ascii. Qed.
 
 (* The side condition cannot be dropped: on a body that is NOT valid UTF-8 the stage's error path releases the raw
    bytes it holds, so what was already edited in an earlier chunk stays edited, while the single-chunk run returns
@@ -109,3 +118,4 @@ Print Assumptions C03_html_fold.
 Print Assumptions C03_html_stage_law.
 Print Assumptions C03_html_stage_law_in_error.
 Print Assumptions C03_chunk_invariance.
+Print Assumptions C03_lower_ok_ascii.
